@@ -125,8 +125,9 @@ pub fn op_node(name: &'static str, inner: VS, cfg: &Cfg) -> VS {
         "in" => (inner.clone(), prop_oneof![3 => vec(inner.clone(), 0..=4).prop_map(Value::Array), 2 => inner.clone()]).prop_map(move |(a, b)| wrap(name, json!([a, b]))).boxed(),
         "!" | "!!" | "log" => prop_oneof![3 => list(name, vec(i.clone(), 1..=1).boxed()), 1 => i.prop_map(move |x| wrap(name, x))].boxed(),
         "<" | "<=" | ">" | ">=" => list(name, vec(i, 2..=3).boxed()),
-        "+" | "cat" | "merge" => list(name, vec(i, 0..=4).boxed()),
-        "*" | "max" | "min" => list(name, vec(i, 1..=4).boxed()),
+        // also written without brackets around a single (possibly array-valued) operand expression
+        "+" | "cat" | "merge" => prop_oneof![7 => list(name, vec(i.clone(), 0..=4).boxed()), 1 => i.prop_filter("bracket-less operand must not be an array literal", |x| !x.is_array()).prop_map(move |x| wrap(name, x))].boxed(),
+        "*" | "max" | "min" => prop_oneof![7 => list(name, vec(i.clone(), 1..=4).boxed()), 1 => i.prop_filter("bracket-less operand must not be an array literal", |x| !x.is_array()).prop_map(move |x| wrap(name, x))].boxed(),
         "-" => list(name, vec(i, 1..=2).boxed()),
         "substr" => {
             let subject = prop_oneof![3 => super::texts(8).prop_map(j), 2 => inner.clone()];
@@ -164,7 +165,7 @@ pub fn op_node(name: &'static str, inner: VS, cfg: &Cfg) -> VS {
             (0u64..5, vec(k, 0..=4), any::<bool>()).prop_map(move |(n, keys, computed)| if computed { wrap(name, json!([n, {"merge": [keys]}])) } else { wrap(name, json!([n, keys])) }).boxed()
         }
         "if" | "?:" => list(name, vec(i, 0..=6).boxed()),
-        "and" | "or" => list(name, vec(i, 1..=4).boxed()),
+        "and" | "or" => prop_oneof![7 => list(name, vec(i.clone(), 1..=4).boxed()), 1 => i.prop_filter("bracket-less operand must not be an array literal", |x| !x.is_array()).prop_map(move |x| wrap(name, x))].boxed(),
         "map" | "filter" | "all" | "some" | "none" => (collection(inner.clone()), inner.clone()).prop_map(move |(c, e)| wrap(name, json!([c, e]))).boxed(),
         "reduce" => (collection(inner.clone()), inner.clone(), inner.clone()).prop_map(move |(c, e, z)| wrap(name, json!([c, e, z]))).boxed(),
         _ => list(name, vec(i, 0..=3).boxed()),
